@@ -56,7 +56,28 @@ fn msg_num(m: &str) -> i64 {
     match m {
         "invalid memory reference" => 900_001,
         "stack overflow" => 900_002,
-        _ => m.strip_prefix('p').and_then(|x| x.parse().ok()).unwrap_or(-1),
+        _ => {
+            // "p<number>" optionally followed by one of the two long fillers; anything else (a truncated or
+            // otherwise altered message) is not the message the body panicked with
+            let Some(rest) = m.strip_prefix('p') else { return -1 };
+            let digits: String = rest.chars().take_while(char::is_ascii_digit).collect();
+            let tail = &rest[digits.len()..];
+            if tail.is_empty() || tail == long_filler("string_long") || tail == long_filler("string_utf8") {
+                digits.parse().unwrap_or(-1)
+            } else {
+                -2
+            }
+        }
+    }
+}
+
+/// long panic messages: 1000 ASCII bytes, or 200 three-byte characters (so that any byte offset a
+/// careless slice might use falls inside a character for most message numbers)
+fn long_filler(kind: &str) -> String {
+    match kind {
+        "string_long" => format!("-{}", "x".repeat(1000)),
+        "string_utf8" => format!("-{}", "\u{20ac}".repeat(200)),
+        _ => String::new(),
     }
 }
 
@@ -84,7 +105,7 @@ fn st_json(s: St) -> Value {
         }
         CoroutineState::Cancelled => json!({"k": "Cancelled"}),
         CoroutineState::Complete(r) => json!({"k": "Complete", "r": r}),
-        CoroutineState::Error(m) => json!({"k": "Error", "m": msg_num(m), "msg": m}),
+        CoroutineState::Error(m) => json!({"k": "Error", "m": msg_num(m), "msg": m.chars().take(40).collect::<String>()}),
     }
 }
 
@@ -254,9 +275,12 @@ fn body(co: u64, steps: Vec<Value>, s: &Suspender<usize, usize>, param: usize) -
             "panic" => {
                 let m = st["m"].as_u64().unwrap();
                 rec(json!({"ev": "step", "co": co, "a": "panic", "v": m, "ts": 0}));
-                if st["kind"].as_str() == Some("string") {
+                let kind = st["kind"].as_str().unwrap_or("str");
+                if kind == "string" {
                     // a formatted payload: Box<String>
                     panic!("p{}", m);
+                } else if kind == "string_long" || kind == "string_utf8" {
+                    panic!("p{}{}", m, long_filler(kind));
                 } else {
                     let lit: &'static str = Box::leak(format!("p{m}").into_boxed_str());
                     std::panic::panic_any(lit);
